@@ -167,6 +167,9 @@ pub struct Case {
     #[serde(default)]
     pub first_seq: u32,
     pub ops: Vec<Op>,
+    /// the receiver is named by host name on the command line ("localhost") instead of an IPv4 literal
+    #[serde(default)]
+    pub host_name: bool,
 }
 
 fn apply_strategy(max_ops: usize) -> impl Strategy<Value = Case> {
@@ -185,8 +188,9 @@ fn apply_strategy(max_ops: usize) -> impl Strategy<Value = Case> {
         any::<bool>(),
         prop_oneof![2 => Just(100u32), 3 => (1u32..8).prop_flat_map(|k| (k * 16_384 - 60)..(k * 16_384 - 1)), 1 => Just(0u32), 1 => Just(0x7fff_ff00u32), 1 => 0u32..0x7fff_0000],
         vec(op, 1..max_ops),
+        prop::bool::weighted(0.3),
     )
-        .prop_map(|(init, classic, first_seq, ops)| Case { init: init.into_iter().collect(), classic, first_seq, ops })
+        .prop_map(|(init, classic, first_seq, ops, host_name)| Case { init: init.into_iter().collect(), classic, first_seq, ops, host_name })
 }
 
 fn full_projection(sh: &Shell, i: usize) -> String {
@@ -211,8 +215,13 @@ pub fn check_apply(case: &Case, obs: &mut Obs) -> CheckResult {
     if case.classic {
         cfg.mode = srtla_core::SchedulingMode::Classic;
     }
-    let mut sh = Shell::new(&case.init, cfg);
+    let mut sh = Shell::new_with_host(&case.init, cfg, if case.host_name { "localhost" } else { "127.0.0.1" });
+    if case.host_name && !sh.st.host_fallback {
+        obs.class("receiver-named-by-host-name");
+    }
     sh.establish_all();
+    // the real reader tasks, kept in step with the link set the way the loop does (sync_readers after a reload)
+    sh.sync_readers();
     let mut owners = Owners::default();
     let mut seq: u32 = case.first_seq;
     let mut nontrivial = false;
@@ -290,7 +299,9 @@ pub fn check_apply(case: &Case, obs: &mut Obs) -> CheckResult {
                         obs.class("reload-refused");
                     }
                     IpReload::Apply { ips, .. } => {
+                        let before_ports: Vec<u16> = (0..n).map(|i| sh.local_port(i)).collect();
                         sh.apply_ips(&ips);
+                        sh.sync_readers();
                         let desired: Vec<IpAddr> = {
                             let mut seen = BTreeSet::new();
                             reference_ips(&text).into_iter().filter(|ip| seen.insert(*ip)).collect()
@@ -319,6 +330,21 @@ pub fn check_apply(case: &Case, obs: &mut Obs) -> CheckResult {
                                 obs.class("removed-link-owned-tracked-seqs");
                             }
                             owners.purge(cid);
+                            // "together with their I/O handle": nobody reads the removed link's socket any more
+                            while sh.st.packet_rx.try_recv().is_ok() {}
+                            // (checked for the first removed link of a reload: each check costs real milliseconds)
+                            if before_ports[*r] != 0 && *r == removed[0] {
+                                sh.pump(1); // the runtime retires the aborted reader
+                                let _ = sh.st.rx.send_to(&[0x80, 0x07, 0, 0, 1, 2, 3, 4], (before_ips[*r], before_ports[*r]));
+                                sh.pump(1);
+                                let mut still_read = false;
+                                while let Ok(p) = sh.st.packet_rx.try_recv() {
+                                    if p.conn_id == cid {
+                                        still_read = true;
+                                    }
+                                }
+                                vensure!(!still_read, "removed-link-still-read", "op {oi}: link {} was removed by the reload, but a datagram sent to its socket (port {}) afterwards was still read and queued under its id", before_ips[*r], before_ports[*r]);
+                            }
                         }
                         // each new address exactly once, with an I/O entry
                         for a in &added {
